@@ -1,11 +1,586 @@
-use vcommon::*;
+//! mon-ha — runtime monitor for C25 (replicated sequencers never commit different
+//! blocks at the same height). Real `RedisLeaderLeaseAdapter`s talk over loopback TCP
+//! to in-process fake Redis nodes that execute the repo's real Lua scripts, under a
+//! seeded fault switchboard; an offline oracle judges the recorded history.
+
+mod conform;
+mod lua;
+mod oracle;
+mod resp;
+mod scenario;
+mod server;
+mod sha1;
+mod store;
+mod universe;
+
+use std::{
+    sync::atomic::Ordering,
+    time::{
+        Duration,
+        Instant,
+    },
+};
+use universe::{
+    Commit,
+    UniverseCfg,
+    Via,
+};
+use vcommon::{
+    serde_json::{
+        Value as Json,
+        json,
+    },
+    *,
+};
+
+const RULE: &str = "Each shard is one universe: 3-5 fake Redis nodes (RESP2 over loopback TCP, executing the \
+repo's real Lua scripts in a Lua-subset interpreter), 2-3 real RedisLeaderLeaseAdapter replicas in a loop that \
+mirrors MainTask::try_to_produce_block + the importer's publish-then-commit order, and a seeded schedule of fault \
+phases (per-link partitions in three styles, request/reply loss, delays beyond the client timeout = late script \
+execution, resets, forced lease expiry, data-losing restarts of nodes from a fixed set of size <= budget, replica \
+crash/recreate, crash between publish and commit). An evaluation is one (universe, height) judged by the \
+commit-agreement check plus one per atomic dump judged by the quorum-uniqueness check; the epoch check runs on every \
+command a node executes. A distinct non-trivial case is one fault phase (shape = node/replica/budget configuration + \
+pattern kinds, targets and styles, without raw delays) during which at least one promote_leader or write_block \
+script executed.";
+
+const ASSUMPTIONS: &[&str] = &[
+    "Redis/Lua semantics are those of this monitor's emulation (RESP2; Redis 7 scripting conversions; Lua 5.1 \
+     subset), checked at every start against hand-computed expectations for the six repo scripts; constructs outside \
+     the emulated subset make the run inconclusive instead of being guessed",
+    "stream_max_len is set far above any reachable stream length, so XTRIM never removes entries (the only regime \
+     in which `MAXLEN ~` is emulated exactly); trimming-related behaviour is not exercised",
+    "data loss only ever hits a fixed set of at most `budget` nodes per universe (the strictest reading of 'no more \
+     nodes than the configured disruption budget'); all node clocks run at the same rate and forced lease expiry \
+     stands in for clock jumps and client pauses",
+    "replicas commit without executing blocks; the harness mirrors the importer's height check only, so the lowest \
+     forked height is the one reported",
+    "the schedule is real-time and multi-threaded: a seed reproduces the configuration and fault schedule, not the \
+     exact interleaving; the recorded history is the witness",
+];
+
+struct Outcome {
+    cfg: UniverseCfg,
+    verdict: oracle::Verdict,
+    applied: Vec<Json>,
+    shapes: Vec<String>,
+    counters: std::collections::BTreeMap<String, u64>,
+    gaps: Vec<String>,
+    harness_errors: Vec<String>,
+    commits: Vec<Commit>,
+    appends: Vec<server::AppendEvent>,
+    wipes: Vec<(u64, usize)>,
+    dumps: Vec<server::Dump>,
+    epoch_violations: Vec<server::EpochViolation>,
+}
+
+fn run_universe(cfg: UniverseCfg, server_rt: &tokio::runtime::Handle, report: &Report) -> Result<Outcome, String> {
+    let setup = universe::setup(cfg.clone(), server_rt)?;
+    let u = setup.universe;
+    let mut handles = Vec::new();
+    let (done_tx, done_rx) = std::sync::mpsc::channel::<usize>();
+    for r in 0..cfg.n_replicas {
+        let u2 = u.clone();
+        let tx = done_tx.clone();
+        handles.push(
+            std::thread::Builder::new()
+                .name(format!("replica-{}-{r}", cfg.shard))
+                .spawn(move || {
+                    if let Err(p) = catch(|| universe::replica_main(u2.clone(), r)) {
+                        u2.harness_errors
+                            .lock()
+                            .unwrap_or_else(|e| e.into_inner())
+                            .push(format!("replica {r} panicked: {p}"));
+                    }
+                    let _ = tx.send(r);
+                })
+                .map_err(|e| format!("spawn: {e}"))?,
+        );
+    }
+    drop(done_tx);
+    let log = universe::direct(&u, &setup.phases, report);
+    u.stop.store(true, Ordering::SeqCst);
+    // generous watchdog: its firing is inconclusive, never a verdict
+    let deadline = Instant::now() + Duration::from_secs(60);
+    let mut finished = 0;
+    while finished < cfg.n_replicas {
+        let left = deadline.saturating_duration_since(Instant::now());
+        match done_rx.recv_timeout(left) {
+            Ok(_) => finished += 1,
+            Err(_) => {
+                u.harness_errors
+                    .lock()
+                    .unwrap_or_else(|e| e.into_inner())
+                    .push("replica threads did not stop within the watchdog".into());
+                break;
+            }
+        }
+    }
+    Ok(collect(&u, cfg, log.applied, log.shapes))
+}
+
+fn collect(u: &universe::Universe, cfg: UniverseCfg, applied: Vec<Json>, shapes: Vec<String>) -> Outcome {
+    u.shared.dump("final", None);
+    u.shared.shutdown.send_modify(|v| *v = true);
+    for row in &u.shared.links {
+        for l in row {
+            l.kill_connections();
+        }
+    }
+    let commits = u.commits.lock().unwrap_or_else(|e| e.into_inner()).clone();
+    let (appends, wipes, dumps, epoch_violations, gaps) = {
+        let mut obs = u.shared.obs.lock().unwrap_or_else(|e| e.into_inner());
+        (
+            std::mem::take(&mut obs.appends),
+            std::mem::take(&mut obs.wipes),
+            std::mem::take(&mut obs.dumps),
+            std::mem::take(&mut obs.epoch_violations),
+            std::mem::take(&mut obs.gaps),
+        )
+    };
+    let counters = u.shared.counters.lock().unwrap_or_else(|e| e.into_inner()).clone();
+    let harness_errors = u.harness_errors.lock().unwrap_or_else(|e| e.into_inner()).clone();
+    let verdict = oracle::judge(&commits, &dumps, &epoch_violations, cfg.quorum(), "");
+    Outcome {
+        cfg,
+        verdict,
+        applied,
+        shapes,
+        counters,
+        gaps,
+        harness_errors,
+        commits,
+        appends,
+        wipes,
+        dumps,
+        epoch_violations,
+    }
+}
+
+/// A directed universe: same infrastructure, recorder and oracle; the scenario drives
+/// the replicas step by step.
+fn run_scenario(cfg: UniverseCfg, name: &str, server_rt: &tokio::runtime::Handle) -> Result<Outcome, String> {
+    let setup = universe::setup(cfg.clone(), server_rt)?;
+    let u = setup.universe;
+    let (done, steps) = match catch(|| scenario::run(&u, name)) {
+        Ok(x) => x,
+        Err(p) => {
+            u.harness_error(format!("scenario {name} panicked: {p}"));
+            (false, Vec::new())
+        }
+    };
+    let shape = format!("scenario:{name}:N{}b{}:{}", cfg.n_nodes, cfg.budget, if done { "completed" } else { "aborted" });
+    let mut applied = vec![json!({"scenario": name, "completed": done})];
+    applied.extend(steps);
+    Ok(collect(&u, cfg, applied, if done { vec![shape] } else { Vec::new() }))
+}
+
+/// Everything recorded about one height: who committed what, every stream append of
+/// that height (node, writer, epoch, late?), wipes, and the fault schedule.
+fn witness(o: &Outcome, height: Option<u32>) -> Json {
+    let commits: Vec<Json> = o
+        .commits
+        .iter()
+        .filter(|c| height.is_none_or(|h| c.height + 1 >= h && c.height <= h + 1))
+        .take(60)
+        .map(|c| json!({"t": c.t, "ms": c.ms, "replica": c.replica, "height": c.height, "block": c.block_id, "via": format!("{:?}", c.via), "adapter_gen": c.adapter_gen}))
+        .collect();
+    let appends: Vec<Json> = o
+        .appends
+        .iter()
+        .filter(|a| height.is_none_or(|h| a.height.is_some_and(|x| x + 1 >= h && x <= h + 1)))
+        .take(80)
+        .map(|a| json!({"t": a.t, "ms": a.ms, "node": a.node, "incarnation": a.incarnation, "by_replica": a.replica, "height": a.height, "epoch": a.epoch, "block": a.block_id, "late": a.late, "during_leader_state": a.during_leader_state, "stream_pos": a.stream_pos}))
+        .collect();
+    json!({
+        "commits_near_height": commits,
+        "stream_appends_near_height": appends,
+        "wipes": o.wipes,
+        "fault_schedule": o.applied,
+    })
+}
+
+fn report_outcome(report: &Report, args: &Args, o: &Outcome) {
+    for (k, v) in &o.counters {
+        report.add(k, *v);
+    }
+    report.evals(o.verdict.heights_judged + o.dumps.len() as u64);
+    report.add("oracle.heights_judged", o.verdict.heights_judged);
+    report.add("oracle.heights_committed_by_2plus_replicas", o.verdict.heights_cross_checked);
+    report.add("oracle.dumps_judged", o.dumps.len() as u64);
+    report.add("oracle.quorum_cells_judged", o.verdict.quorum_cells_judged);
+    report.add("oracle.epoch_observations", o.counters.iter().filter(|(k, _)| k.starts_with("srv.cmd.")).map(|(_, v)| *v).sum::<u64>());
+    report.add("obs.node_duplicate_heights_final", o.verdict.node_duplicate_heights);
+    report.add("obs.undecodable_stream_entries", o.verdict.undecodable_entries);
+    report.add("obs.stream_appends", o.appends.len() as u64);
+    report.add("obs.max_height", o.verdict.max_height as u64);
+    let by_via = |v: Via| o.commits.iter().filter(|c| c.via == v).count() as u64;
+    report.add("commits.via_publish", by_via(Via::Publish));
+    report.add("commits.via_reconcile", by_via(Via::Reconcile));
+    report.add("commits.via_gossip", by_via(Via::Gossip));
+    // out-of-order arrivals: an append whose height is below the previous entry's
+    let mut last_h: std::collections::HashMap<(usize, u64), u32> = Default::default();
+    let mut ooo = 0u64;
+    for a in &o.appends {
+        if let Some(h) = a.height {
+            let key = (a.node, a.incarnation);
+            if let Some(prev) = last_h.get(&key) {
+                if h < *prev {
+                    ooo += 1;
+                }
+            }
+            last_h.insert(key, h);
+        }
+    }
+    report.add("obs.out_of_order_height_appends", ooo);
+    report.count(&format!("universe.shape.N{}R{}b{}", o.cfg.n_nodes, o.cfg.n_replicas, o.cfg.budget));
+    if o.counters.get("replica.elections").copied().unwrap_or(0) > 0 {
+        report.count("universe.with_election");
+    }
+    if o.counters.get("replica.publish.ok").copied().unwrap_or(0) > 0 {
+        report.count("universe.with_publish");
+    }
+    for s in &o.shapes {
+        report.distinct(s);
+        report.count("fault.phases_with_protocol_activity");
+    }
+    for g in &o.gaps {
+        report.inconclusive(format!("shard {}: emulation gap: {g}", o.cfg.shard));
+    }
+    for e in &o.harness_errors {
+        report.inconclusive(format!("shard {}: harness: {e}", o.cfg.shard));
+    }
+    if report.wants_sample() {
+        report.sample(json!({
+            "config": o.cfg.to_json(),
+            "first_fault_phases": o.applied.iter().take(6).collect::<Vec<_>>(),
+            "commit_log_excerpt": o.commits.iter().take(8).map(|c| json!({"replica": c.replica, "height": c.height, "block": c.block_id, "via": format!("{:?}", c.via)})).collect::<Vec<_>>(),
+            "max_height": o.verdict.max_height,
+            "elections": o.counters.get("replica.elections"),
+        }));
+    }
+    for f in &o.verdict.findings {
+        let replay = json!({
+            "seed": args.seed, "shard": o.cfg.shard, "iteration": 0,
+            "scenario": o.applied.first().and_then(|a| a.get("scenario")).cloned().unwrap_or(Json::Null),
+            "config": o.cfg.to_json(),
+            "finding": f.witness,
+            "history": witness(o, f.height),
+        });
+        report.violation(f.signature.clone(), f.detail.clone(), replay);
+    }
+}
+
+fn write_debug_log(args: &Args, o: &Outcome) {
+    // full event history under the scratch dir (deleted by the driver)
+    let log = EventLog::new();
+    for a in &o.applied {
+        log.push("director", a.clone());
+    }
+    for c in &o.commits {
+        log.push("commit", json!({"lt": c.t, "replica": c.replica, "height": c.height, "block": c.block_id, "via": format!("{:?}", c.via)}));
+    }
+    for a in &o.appends {
+        log.push("append", json!({"lt": a.t, "node": a.node, "inc": a.incarnation, "replica": a.replica, "height": a.height, "epoch": a.epoch, "block": a.block_id, "late": a.late, "ls": a.during_leader_state}));
+    }
+    log.write_jsonl(&args.scratch.join(format!("mon-ha-shard{}.jsonl", o.cfg.shard)));
+}
+
+fn selftest(args: &Args, report: &Report, server_rt: &tokio::runtime::Handle, which: u64) {
+    // a short real universe provides the recorded history that is then perturbed
+    let mut cfg = universe::gen_cfg(args.seed, 0, 5_000);
+    cfg.n_nodes = 3;
+    cfg.budget = 0;
+    cfg.wipeable.clear();
+    let o = match run_universe(cfg, server_rt, report) {
+        Ok(o) => o,
+        Err(e) => {
+            report.inconclusive(format!("selftest universe failed: {e}"));
+            return;
+        }
+    };
+    for g in &o.gaps {
+        report.inconclusive(format!("emulation gap: {g}"));
+    }
+    let quorum = o.cfg.quorum();
+    let base = oracle::judge(&o.commits, &o.dumps, &o.epoch_violations, quorum, "selftest:");
+    report.add("selftest.base_findings", base.findings.len() as u64);
+    let adapter_commits: Vec<&Commit> = o.commits.iter().filter(|c| c.via != Via::Gossip).collect();
+    let Some(victim) = adapter_commits.first() else {
+        report.inconclusive("selftest: the short universe committed nothing");
+        return;
+    };
+    let emit = |v: oracle::Verdict, expect: &str| {
+        report.eval();
+        let mut hit = false;
+        for f in v.findings {
+            if f.signature.starts_with(expect) {
+                hit = true;
+            }
+            report.violation(f.signature, f.detail, json!({"selftest": which, "witness": f.witness}));
+        }
+        if !hit {
+            report.inconclusive(format!("selftest {which}: the perturbation was NOT detected (expected {expect})"));
+        }
+    };
+    match which {
+        1 => {
+            // corrupt the observed value: another replica "commits" a different id
+            let mut commits = o.commits.clone();
+            let mut fake = (*victim).clone();
+            fake.replica = (victim.replica + 1) % o.cfg.n_replicas;
+            fake.block_id = "feedfacefeedfacefeed".into();
+            commits.push(fake);
+            emit(
+                oracle::judge(&commits, &o.dumps, &o.epoch_violations, quorum, "selftest:"),
+                "selftest:commit_fork",
+            );
+        }
+        2 => {
+            // a second block id appears on a quorum of nodes in the last dump
+            let mut dumps = o.dumps.clone();
+            let Some(last) = dumps.last_mut() else {
+                report.inconclusive("selftest: no dumps");
+                return;
+            };
+            // pick a height whose real block is on a quorum
+            let mut target = None;
+            'outer: for n in &last.nodes {
+                for e in &n.stream {
+                    if let (Some(h), Some(id)) = (e.height, &e.block_id) {
+                        let holders = last
+                            .nodes
+                            .iter()
+                            .filter(|m| m.stream.iter().any(|x| x.height == Some(h) && x.block_id.as_ref() == Some(id)))
+                            .count();
+                        if holders >= quorum {
+                            target = Some(h);
+                            break 'outer;
+                        }
+                    }
+                }
+            }
+            let Some(h) = target else {
+                report.inconclusive("selftest: no height on a quorum in the final dump");
+                return;
+            };
+            for n in last.nodes.iter_mut().take(quorum) {
+                n.stream.push(server::StreamItem {
+                    id: "9999999999999-0".into(),
+                    height: Some(h),
+                    epoch: Some(1),
+                    block_id: Some("deadbeefdeadbeefdead".into()),
+                });
+            }
+            emit(
+                oracle::judge(&o.commits, &dumps, &o.epoch_violations, quorum, "selftest:"),
+                "selftest:two_ids_on_quorum",
+            );
+        }
+        3 => {
+            // the per-command observer reports a decrease
+            let ev = vec![server::EpochViolation {
+                t: 1,
+                node: 0,
+                incarnation: 0,
+                before: 7,
+                after: 3,
+                command: "write_block".into(),
+                replica: 0,
+            }];
+            emit(
+                oracle::judge(&o.commits, &o.dumps, &ev, quorum, "selftest:"),
+                "selftest:epoch_decrease cmd=write_block",
+            );
+        }
+        _ => {
+            // swap two observed dumps' epochs: the dump chain sees a decrease
+            let mut dumps = o.dumps.clone();
+            let mut done = false;
+            let n_dumps = dumps.len();
+            if n_dumps >= 2 {
+                for node in 0..o.cfg.n_nodes {
+                    let first = dumps[0].nodes[node].epoch.unwrap_or(0);
+                    let last = dumps[n_dumps - 1].nodes[node].epoch.unwrap_or(0);
+                    if last > first {
+                        dumps[0].nodes[node].epoch = Some(last);
+                        dumps[n_dumps - 1].nodes[node].epoch = Some(first);
+                        done = true;
+                        break;
+                    }
+                }
+            }
+            if !done {
+                report.inconclusive("selftest: no node epoch grew during the short universe");
+                return;
+            }
+            emit(
+                oracle::judge(&o.commits, &dumps, &o.epoch_violations, quorum, "selftest:"),
+                "selftest:epoch_decrease cmd=between_dumps",
+            );
+        }
+    }
+}
 
 fn main() {
     let args = Args::parse();
     install_quiet_panic_hook();
     let report = Report::new(&args.property);
-    match args.property.as_str() {
-        other => report.inconclusive(format!("property {other} not implemented in this monitor")),
+    if args.property != "C25" {
+        report.inconclusive(format!("property {} not implemented in this monitor", args.property));
+        report.finish(&args, "exploration", "", false, &[]);
+        return;
     }
-    report.finish(&args, "exploration", "", false, &[]);
+
+    // 1. the trusted base checks itself
+    let (passed, failures) = conform::run_conformance();
+    report.add("emu.conformance_checks_passed", passed as u64);
+    report.require("emu.conformance_checks_passed", 200);
+    if !failures.is_empty() {
+        for f in failures.iter().take(10) {
+            report.inconclusive(format!("emulation conformance check failed: {f}"));
+        }
+        report.finish(&args, "exploration", RULE, false, ASSUMPTIONS);
+        return;
+    }
+
+    let server_rt = match tokio::runtime::Builder::new_multi_thread()
+        .worker_threads(6)
+        .thread_name("fake-redis")
+        .enable_all()
+        .build()
+    {
+        Ok(rt) => rt,
+        Err(e) => {
+            report.inconclusive(format!("cannot build the fake-redis runtime: {e}"));
+            report.finish(&args, "exploration", RULE, false, ASSUMPTIONS);
+            return;
+        }
+    };
+    let handle = server_rt.handle().clone();
+
+    if let Some(n) = args.extra.get("selftest") {
+        let which = n.parse::<u64>().unwrap_or(1);
+        selftest(&args, &report, &handle, which);
+        report.finish(&args, "exploration", RULE, false, ASSUMPTIONS);
+        server_rt.shutdown_timeout(Duration::from_millis(500));
+        return;
+    }
+
+    let duration_ms: u64 = args
+        .extra
+        .get("duration-ms")
+        .and_then(|s| s.parse().ok())
+        .unwrap_or(args.by_tier(22_000, 24_000));
+    let parallel: usize = args
+        .extra
+        .get("parallel")
+        .and_then(|s| s.parse().ok())
+        .unwrap_or(args.by_tier(12, 14));
+    let waves: usize = args.extra.get("waves").and_then(|s| s.parse().ok()).unwrap_or(args.by_tier(1, 11));
+    // triage aid only (never default): run the scripts with write_block.lua's scan
+    // early-exit disabled on the server side, to see what else would fire
+    let fixscan = args.extra.get("fixscan").is_some_and(|v| v == "1");
+    let patches: Vec<(String, String)> = if fixscan {
+        report.note("TRIAGE MODE: write_block.lua is executed with `stop_scan = true` replaced by `stop_scan = false`");
+        vec![(
+            sha1::sha1_hex(conform::WRITE_BLOCK.as_bytes()),
+            conform::WRITE_BLOCK.replace("stop_scan = true", "stop_scan = false"),
+        )]
+    } else {
+        Vec::new()
+    };
+
+    let mut run_args = args.clone();
+    run_args.threads = parallel;
+    if let Some(rp) = read_replay(&args) {
+        // best effort: same configuration and fault schedule, the interleaving is free
+        let shard = rp.get("shard").and_then(|v| v.as_u64()).unwrap_or(0) as usize;
+        let scen = rp.get("scenario").and_then(|v| v.as_str()).map(|s| s.to_string());
+        let result = match scen.as_deref().and_then(|n| scenario::SCENARIOS.iter().find(|s| **s == n)) {
+            Some(name) => {
+                let mut cfg = scenario::scenario_cfg(args.seed, shard, name);
+                cfg.script_patches = patches.clone();
+                run_scenario(cfg, name, &handle)
+            }
+            None => {
+                let mut cfg = universe::gen_cfg(args.seed, shard, duration_ms);
+                cfg.script_patches = patches.clone();
+                run_universe(cfg, &handle, &report)
+            }
+        };
+        match result {
+            Ok(o) => {
+                write_debug_log(&args, &o);
+                report_outcome(&report, &args, &o)
+            }
+            Err(e) => report.inconclusive(format!("replay universe failed: {e}")),
+        }
+        report.note("replay re-runs the recorded shard's configuration and fault schedule; the recorded history in the replay file is the witness");
+        report.finish(&args, "exploration", RULE, false, ASSUMPTIONS);
+        server_rt.shutdown_timeout(Duration::from_millis(500));
+        return;
+    }
+
+    let n_universes = parallel * waves;
+    let n_scenarios: usize = args
+        .extra
+        .get("scenarios")
+        .and_then(|s| s.parse().ok())
+        .unwrap_or(scenario::SCENARIOS.len() * args.by_tier(3, 12));
+    {
+        let report2 = report.clone();
+        let args2 = args.clone();
+        let handle2 = handle.clone();
+        let patches2 = patches.clone();
+        run_shards(&report, &run_args, n_scenarios + n_universes, move |shard, _shard_seed| {
+            let result = if shard < n_scenarios {
+                let name = scenario::SCENARIOS[shard % scenario::SCENARIOS.len()];
+                let mut cfg = scenario::scenario_cfg(args2.seed, shard, name);
+                cfg.script_patches = patches2.clone();
+                run_scenario(cfg, name, &handle2)
+            } else {
+                let mut cfg = universe::gen_cfg(args2.seed, shard, duration_ms);
+                cfg.script_patches = patches2.clone();
+                run_universe(cfg, &handle2, &report2)
+            };
+            match result {
+                Ok(o) => {
+                    if !o.verdict.findings.is_empty() || args2.extra.contains_key("keep-logs") {
+                        write_debug_log(&args2, &o);
+                    }
+                    report_outcome(&report2, &args2, &o);
+                    report2.count(if shard < n_scenarios { "scenario.shards_run" } else { "universe.completed" });
+                }
+                Err(e) => report2.inconclusive(format!("shard {shard}: universe setup failed: {e}")),
+            }
+        });
+    }
+
+    // observation thresholds: a run that elected nobody, published nothing or never hit
+    // a fault is inconclusive
+    let scale = waves as u64;
+    report.require("universe.completed", (n_universes as u64) * 3 / 4);
+    report.require("universe.with_election", (n_universes as u64) * 3 / 4);
+    report.require("replica.elections", 40 * scale);
+    report.require("replica.publish.ok", 1500 * scale);
+    report.require("commits.via_reconcile", 100 * scale);
+    report.require("oracle.heights_committed_by_2plus_replicas", 50 * scale);
+    report.require("srv.promote.lock_held", 200 * scale);
+    report.require("srv.write_block.reject.lost_lease", 20 * scale);
+    report.require("srv.write_block.reject.height_exists", 5 * scale);
+    report.require("srv.write_block.repair_written", 3 * scale);
+    report.require("srv.late_exec.write_block", 20 * scale);
+    report.require("srv.write_block.late_written", 5 * scale);
+    report.require("director.partitions", 40 * scale);
+    report.require("director.forced_expiries", 40 * scale);
+    report.require("director.wipes", 3 * scale);
+    report.require("fault.phases_with_protocol_activity", 150 * scale);
+    report.require("oracle.dumps_judged", 200 * scale);
+    report.info(
+        "parameters",
+        json!({"universes": n_universes, "parallel": parallel, "waves": waves, "duration_ms": duration_ms, "fixscan": fixscan}),
+    );
+    report.finish(&args, "exploration", RULE, false, ASSUMPTIONS);
+    server_rt.shutdown_timeout(Duration::from_millis(500));
 }
